@@ -10,6 +10,7 @@ import LuaHelper.Driver.PatOps
 import LuaHelper.Driver.OutlineOps
 import LuaHelper.Driver.ModOps
 import LuaHelper.Driver.AnnotOps
+import LuaHelper.Driver.ClosureOps
 open LuaHelper
 
 def dispatch (cmd : String) (args : List String) : String :=
@@ -44,6 +45,9 @@ def dispatch (cmd : String) (args : List String) : String :=
   | some r => r
   | none =>
   match AnnotOps.handle cmd args with
+  | some r => r
+  | none =>
+  match ClosureOps.handle cmd args with
   | some r => r
   | none => "bad-op"
 
